@@ -613,6 +613,11 @@ func (l *LiveResp) Write(p []byte) (int, error) {
 
 // Flush implements http.Flusher.
 func (l *LiveResp) Flush() {
+	// a Flush is an operation on the ResponseWriter like a Write: two of them at once is a concurrent use of one stream
+	if atomic.AddInt32(&l.inWrite, 1) > 1 {
+		atomic.AddInt64(&l.Overlaps, 1)
+	}
+	defer atomic.AddInt32(&l.inWrite, -1)
 	if h := l.WriteHook; h != nil {
 		h("flush", 0)
 	}
